@@ -19,6 +19,13 @@ fn main() {
     std::panic::set_hook(Box::new(|_| {}));
     match args[1].as_str() {
         "exec" => {
+            // A search that does not terminate or allocates without bound must kill THIS process (quickly), not the
+            // machine: cap the address space; the parent notices the death and names the request.
+            unsafe {
+                let gb: u64 = std::env::var("ACHARNESS_AS_GB").ok().and_then(|x| x.parse().ok()).unwrap_or(16);
+                let lim = libc::rlimit { rlim_cur: gb << 30, rlim_max: gb << 30 };
+                libc::setrlimit(libc::RLIMIT_AS, &lim);
+            }
             let f = std::fs::File::open(&args[2]).expect("open reqfile");
             let rdr = std::io::BufReader::new(f);
             let out = std::io::stdout();
@@ -39,6 +46,8 @@ fn main() {
                 for (cfg, resp) in exec::run(&r) {
                     writeln!(out, "{} {} {}", i, cfg, resp).unwrap();
                 }
+                // one flush per request: if the next request kills the process, everything before it is out
+                out.flush().unwrap();
             }
             out.flush().unwrap();
         }
